@@ -432,8 +432,8 @@ def depends(rep, repo):
     # primitive it uses (C09.remove) are part of this check
     from checks import c09, c10
     cmod = repo.mod('circuit')
-    c10.elim_rules(rep, cmod)
-    c09.removal(rep, cmod)
+    if not c10.function_rules(rep, repo, cmod, what=('elim',)):
+        c09.removal(rep, cmod)
 
 
 def thorough(rep, repo):
